@@ -134,22 +134,26 @@ func Step2(cpu int, op1 int, op2 int, m int, x int) {
 	w65816.Step(&a, cpuenv.SpecMem)
 	vp.Assume(!a.BCDInvalid && !a.E && !a.Stopped)
 	var panicked bool
-	var implPC uint32
+	var mid w65816.Arch
 	if cpu == 0 {
 		c := cpuenv.Main
 		panicked = vp.Try(func() { c.Step() })
-		implPC = uint32(c.RK)<<16 | uint32(c.PC)
+		mid = cpuenv.AbstractMain(c)
 	} else {
 		c := cpuenv.Alt
 		panicked = vp.Try(func() { c.Step() })
-		implPC = uint32(c.RK)<<16 | uint32(c.PC)
+		mid = cpuenv.AbstractAlt(c)
 	}
 	if panicked {
 		vp.Reach("first-step-failed")
 		return
 	}
+	// the inductive reading: "if the first instruction agreed with the model, so does the second"
+	// (a first instruction that disagrees is reported by Step, and would otherwise be reported twice)
+	vp.Assume(mid.C == a.C && mid.X == a.X && mid.Y == a.Y && mid.S == a.S && mid.D == a.D && mid.DBR == a.DBR && mid.K == a.K && mid.PC == a.PC && mid.P == a.P && mid.E == a.E)
+	vp.Assume(vp.BytesEqual(implMem, cpuenv.SpecMem))
+	implPC := uint32(mid.K)<<16 | uint32(mid.PC)
 	specPC := uint32(a.K)<<16 | uint32(a.PC)
-	vp.Assume(implPC == specPC)
 	implMem[implPC] = uint8(op2)
 	cpuenv.SpecMem[specPC] = uint8(op2)
 
